@@ -370,7 +370,7 @@ def execute(arg):
                     acked = True
                 except Exception as exc:
                     acked = False
-                    sim.event("write-raised", st["file"], type(exc).__name__, str(exc)[:100])
+                    sim.event("write-raised", st["file"], type(exc).__name__, str(exc).replace(root, "<fs>")[:100])
                 finally:
                     fired = [k for k, _ in fs.fired]
                     fs.disarm()
@@ -428,7 +428,7 @@ def execute(arg):
                     got = do_read(w["fmt"], path, w["recipe"])
                 except Exception as exc:
                     viol.append({"property": PROPERTY, "signature": f"C11/roundtrip/{base}/{cause}/read-raises-{type(exc).__name__}", "step": i,
-                                 "detail": f"step {i}: reading {st['file']} (acknowledged {w['fmt']} write of {D.describe(w['recipe'])}, kw={w['kw']}, history={h}) raises {type(exc).__name__}: {exc}"[:900]})
+                                 "detail": f"step {i}: reading {st['file']} (acknowledged {w['fmt']} write of {D.describe(w['recipe'])}, kw={w['kw']}, history={h}) raises {type(exc).__name__}: {exc}".replace(root, "<fs>")[:900]})
                     continue
                 finally:
                     fs.short_reads = False
